@@ -617,7 +617,7 @@ fn count_val(obs: &mut Obs, path: &str, v: &str) {
 fn count_ty(g: &mut Gen, t: &Ty) {
     let k = match t { Ty::Bool => "bool", Ty::I64 => "i64", Ty::U64 => "u64", Ty::I32 => "i32", Ty::U32 => "u32", Ty::F64 => "f64", Ty::F32 => "f32", Ty::Str => "str", Ty::Any => "any", Ty::Ign => "ign", Ty::U16 => "u16", Ty::I16 => "i16", Ty::U8 => "u8", Ty::I8 => "i8",
         Ty::Opt(x) => { count_ty(g, x); "opt" } Ty::Seq(x) => { count_ty(g, x); "seq" } Ty::Map(x) => { count_ty(g, x); "map" } Ty::Prop(x) => { count_ty(g, x); "prop" }
-        Ty::Struct(fs) => { for (_, x) in fs { count_ty(g, x); } "struct" } Ty::Enum(_) => "enum" };
+        Ty::Struct(fs) => { for (_, x) in fs { count_ty(g, x); } "struct" } Ty::Enum(_) => "enum", Ty::Tuple(ts) => { for x in ts { count_ty(g, x); } "tuple" } };
     g.count(&format!("ty:{}", k));
 }
 
